@@ -33,6 +33,53 @@ Section MacroProof.
   Proof.
     intros items k. rewrite macro_panic_rebuild, (rebuild_missing_first Hk), macro_keys. reflexivity.
   Qed.
+  Lemma kouts_item k (it : item K V E) :
+    kouts keqb k (item_edges it) =
+    if keqb (fst (item_node it)) k then map (fun te => (Some (fst te), snd te)) (snd it) else [].
+  Proof.
+    destruct it as [[k0 v0] tes]. unfold item_edges, item_node. cbn [fst snd].
+    induction tes as [|[t e] tes IH]; cbn [map].
+    - now destruct (keqb k0 k).
+    - unfold kouts in *. cbn [flat_map fst snd]. rewrite IH. now destruct (keqb k0 k).
+  Qed.
+
+  Lemma item_edges_src (it : item K V E) s t e :
+    In (s, t, e) (item_edges it) -> s = fst (item_node it).
+  Proof.
+    unfold item_edges, item_node. intros Hin. apply in_map_iff in Hin.
+    destruct Hin as (te & [= <- _ _] & _). reflexivity.
+  Qed.
+
+  Theorem macro_denotes : forall items, NoDup (map (fun it => fst (item_node it)) items) ->
+    (forall s t e, In (s, t, e) (flat_map (@item_edges K V E) items) -> In t (map (fun it => fst (item_node it)) items)) ->
+    exists h g, macro_build keqb items = MOk h g /\ Inv h /\ GraphOK h g /\
+      (forall k, g_contains keqb g k = true <-> In k (map (fun it => fst (item_node it)) items)) /\
+      (forall it, In it items -> exists u, g_get keqb g (fst (item_node it)) = Some u /\ valof h u = Some (snd (item_node it)) /\
+         map (fun p => (keyof h (fst p), snd p)) (outs h u) = map (fun te => (Some (fst te), snd te)) (snd it)).
+  Proof.
+    intros items Hnd Hdecl.
+    assert (Hd : forall s t e, In (s, t, e) (flat_map (@item_edges K V E) items) ->
+                 In s (map fst (map (@item_node K V E) items)) /\ In t (map fst (map (@item_node K V E) items))).
+    { intros s t e Hin. rewrite macro_keys. split; [|now apply (Hdecl s t e)].
+      apply in_flat_map in Hin. destruct Hin as (it & Hit & Hin). apply item_edges_src in Hin. subst s.
+      now apply (in_map (fun it => fst (item_node it))). }
+    destruct (rebuild_keyed Hk _ _ Hd) as (h & g & Hr & HI & HG & Hc & Hget).
+    exists h, g. split; [unfold macro_build; now rewrite Hr|]. split; [exact HI|]. split; [exact HG|].
+    split; [intros k; rewrite Hc, macro_keys; reflexivity|].
+    intros it Hit.
+    assert (Hkin : In (fst (item_node it)) (map fst (map (@item_node K V E) items))).
+    { rewrite macro_keys. now apply (in_map (fun it => fst (item_node it))). }
+    apply Hc in Hkin. apply g_contains_get in Hkin. destruct Hkin as [u Hu]. exists u. split; [exact Hu|].
+    destruct (Hget _ _ Hu) as ((v & Hv & Hval) & Ho & _). split.
+    - rewrite Hval. f_equal. rewrite macro_keys in Hc.
+      assert (Hnd' : NoDup (map fst (map (@item_node K V E) items))) by now rewrite macro_keys.
+      eapply nodup_fst_inj; [exact Hnd'|exact Hv|]. rewrite <- surjective_pairing. now apply in_map.
+    - unfold keyed in Ho. rewrite Ho, kouts_flat_map.
+      rewrite (@flat_map_single _ _ _ (fun it0 : item K V E => fst (item_node it0)) _ items it Hnd Hit).
+      + now rewrite kouts_item, (keqb_rfl Hk).
+      + intros it0 _ Hne. rewrite kouts_item, (keqb_neq Hk); [reflexivity|exact Hne].
+  Qed.
 End MacroProof.
 
 Print Assumptions macro_panics_first_missing.
+Print Assumptions macro_denotes.
